@@ -120,6 +120,15 @@ var c17Names = []string{"a", "b", "c", "evil", "evil", "x", "unknown", "..", "..
 var c17Targets = []string{"SB/victim/f", "SB/victim", "SB/victim/new", "SB/victim/newdir/", "../victim/f", "../victim", "../../victim/f", ".",
 	"..", "a", "b", "/", "SB/out", "SB/out/a", "evil", "nonexistent", "../victim/new", "SB", "/nonexistent-root-dir/x", "sub", "./"}
 
+// c17Target: half of the time a target that leaves the output directory towards something that
+// exists (or can be created) outside
+func (g *Gen) c17Target() string {
+	if g.pick(2) == 0 {
+		return []string{"SB/victim/f", "SB/victim/new", "../victim/f", "../victim/new", "SB/victim", "../victim", "SB/victim/d/g"}[g.pick(7)]
+	}
+	return c17Targets[g.pick(len(c17Targets))]
+}
+
 // genEntry makes one directory entry's node; depth bounds nesting.
 func (g *Gen) c17Node(d *ufsDag, sb string, depth int) ipld.Link {
 	switch k := g.pick(17); {
@@ -179,9 +188,13 @@ func (g *Gen) c17Dir(d *ufsDag, sb string, depth int) ipld.Link {
 		entries = append(entries, dirEntry(name, g.c17Node(d, sb, depth)))
 		// the classic: a symlink, then an entry of the same (cleaned) name
 		if g.pick(5) == 0 {
-			t := strings.ReplaceAll(c17Targets[g.pick(len(c17Targets))], "SB", sb)
+			t := strings.ReplaceAll(g.c17Target(), "SB", sb)
 			entries = append(entries[:len(entries)-1], dirEntry(name, d.pbNode(ufsData(data.Data_Symlink, []byte(t), nil), nil)))
-			entries = append(entries, dirEntry(name, g.c17Node(d, sb, depth)))
+			if g.pick(2) == 0 {
+				entries = append(entries, dirEntry(name, d.rawLeaf(g.bytes(1+g.pick(6)))))
+			} else {
+				entries = append(entries, dirEntry(name, g.c17Node(d, sb, depth)))
+			}
 		}
 	}
 	if g.pick(5) == 0 && len(entries) > 0 { // HAMT-sharded
@@ -432,7 +445,7 @@ func famC17(g *Gen, o *Out, n int, thorough bool) {
 				case 1:
 					os.MkdirAll(p, 0o755)
 				default:
-					os.Symlink(strings.ReplaceAll(c17Targets[g.pick(len(c17Targets))], "SB", sb), p)
+					os.Symlink(strings.ReplaceAll(g.c17Target(), "SB", sb), p)
 				}
 			}
 		}
